@@ -168,6 +168,9 @@ pub fn main(args: &[String]) -> i32 {
         // the longest key a persistent store of this format can recover, and a medium one
         keys[0] = vec![b'L'; if fmt == 1 { 4074 } else { 4066 }];
         if nkeys > 2 { keys[1] = vec![b'm'; 300]; }
+        // a length inside the window that only the OTHER header size can recover (v1: 4067..=4074; v2/v3 refuse
+        // it, v1 accepts it), and on v1 one beyond its own maximum: each format's bound is tried on every format
+        if nkeys > 3 { keys[2] = vec![b'W'; if fmt == 1 { 4075 } else { 4067 + (seed % 8) as usize }]; }
     }
     let mut nows: Vec<(u64, u64)> = Vec::new(); // (seq position marker via api event index, now)
     obs::install();
